@@ -34,7 +34,7 @@ PROBES = ["closure_writer", "closure_export", "closure_compress", "closure_repac
           "closure_join", "copy_same_valid", "corrupt_single", "corrupt_pair", "corrupt_copy_compared",
           "k_feat_len", "k_contour_len", "k_roi", "k_unknown_feat", "k_missing_key", "k_index", "k_channel_count",
           "k_laser_count", "k_samples", "k_extlink", "k_nonpositive", "fluorescence_product", "trace_without_flmax",
-          "stored_index", "fl3_only_product", "index_rewritten_in_replace_mode", "export_feature_subset", "export_overrides_existing_file", "three_writer_sessions_one_without_exit", "switched_off_laser_defined", "checked_before_corrupted_in_place",
+          "stored_index", "fl3_only_product", "index_rewritten_in_replace_mode", "export_feature_subset", "export_overrides_existing_file", "three_writer_sessions_one_without_exit", "feature_deregistered_between_writers", "switched_off_laser_defined", "checked_before_corrupted_in_place",
           "basin_export_without_some_features"]
 COMPONENTS = {
     "real": ["dclab.rtdc_dataset.check (IntegrityChecker, check_dataset)", "dclab RTDCWriter, export.hdf5, cli compress/repack/"
@@ -114,7 +114,7 @@ class World:
                     "trace": (fl and r.random() < 0.6) or (not fl and r.random() < 0.12), "image": r.random() < 0.6,
                     "mask": r.random() < 0.5, "contour": r.random() < 0.3, "index": r.random() < 0.3,
                     "flset": r.choice([[1, 2], [1, 2], [1], [2], [3], [3], [1, 3], [1, 2, 3]]),
-                    "rewrite_index": r.random() < 0.25, "laser_off": r.random() < 0.3, "sessions3": r.random() < 0.3,
+                    "rewrite_index": r.random() < 0.25, "laser_off": r.random() < 0.3, "sessions3": r.random() < 0.3, "ghost": r.random() < 0.2,
                     "cmp": r.choice(["zstd", "zstd1", "gzip", "none"])}
         src = r.randrange(1 << 16)
         if x < 0.22:
@@ -243,6 +243,24 @@ class World:
             if flset == [3]:
                 ctx.probe("fl3_only_product")
         name = self.newname("w")
+        if op.get("ghost"):
+            # a temporary feature that another writer stored while it was registered; it is deregistered again before this
+            # file is written and this writer is asked to store it as well (must be refused)
+            import dclab
+            from dclab.rtdc_dataset.writer import RTDCWriter
+            try:
+                with quiet():
+                    dclab.register_temporary_feature("ghost_c13")
+                    with RTDCWriter(self.dir / (name[:-5] + "_ghost.rtdc"), mode="reset") as hwg:
+                        hwg.store_metadata({"setup": {"software version": "ShapeIn 2.2.2.4"}, "experiment": {"sample": "g", "run index": 1}})
+                        hwg.store_feature("deform", np.linspace(0.01, 0.02, 3))
+                        hwg.store_feature("ghost_c13", np.arange(3.0))
+                    from dclab.rtdc_dataset.feat_temp import deregister_temporary_feature
+                    deregister_temporary_feature("ghost_c13")
+                (self.dir / (name[:-5] + "_ghost.rtdc")).unlink()
+                ctx.probe("feature_deregistered_between_writers")
+            except Exception as e:
+                self.skipped("ghost", e)
         try:
             with quiet():
                 if op.get("sessions3") and n >= 3 and "index" in m.feats:
@@ -269,6 +287,13 @@ class World:
                     ctx.probe("three_writer_sessions_one_without_exit")
                 else:
                     gen.write_model(m, self.dir / name, compression=op["cmp"])
+                if op.get("ghost"):
+                    from dclab.rtdc_dataset.writer import RTDCWriter
+                    with RTDCWriter(self.dir / name, mode="append") as hwx:
+                        try:
+                            hwx.store_feature("ghost_c13", np.arange(float(n)))
+                        except ValueError:
+                            pass
                 if op.get("rewrite_index") and "index" in m.feats:
                     # a second writer session in replace mode stores the index again (still dclab's own writer)
                     from dclab.rtdc_dataset.writer import RTDCWriter
